@@ -346,7 +346,7 @@ class Real:
         return n, bad
 
     SQL_TABLE = re.compile(r'edgedbpub\."([0-9a-f]{8}-[0-9a-f-]{27})"')
-    SQL_COL = re.compile(r'(?<!edgedbpub)\."([0-9a-f]{8}-[0-9a-f-]{27})"')
+    SQL_COL = re.compile(r'("[^"]+"|[A-Za-z_][A-Za-z0-9_]*)\."([0-9a-f]{8}-[0-9a-f-]{27})"')
 
     def queries_for(self, schema, ptr_ids, limit):
         """EdgeQL queries reading the given pointers: `select T { p }`, `select T.p`, `select T.l@q`"""
@@ -397,7 +397,7 @@ class Real:
             for t in set(self.SQL_TABLE.findall(sql)):
                 if ('edgedbpub', t) not in cat:
                     bad.append((tag, f'{q}: the SQL reads table edgedbpub."{t}" which does not exist'))
-            for c in set(self.SQL_COL.findall(sql)):
+            for c in {col for alias, col in self.SQL_COL.findall(sql) if not alias.strip('"').startswith('edgedb')}:
                 if c not in allcols:
                     bad.append((tag, f'{q}: the SQL reads column "{c}" which exists in no table'))
         return n, bad, errors
@@ -583,11 +583,16 @@ def diff_cmds(ids: Ids, a0, a1):
         if not o['computed'] and n['computed']:
             cmds += [f"se {i} {b01(n['single'])}"] + rq + lp_down + lp_up
         elif o['computed'] and not n['computed']:
-            cmds += lp_down
             if o['single'] != n['single']:
                 cmds.append(f"sg {i} {b01(n['single'])}")       # while still computed: schema only
                 oom.append('computed -> stored with a cardinality change')
-            cmds += [f're {i}'] + rq + lp_up
+            if n.get('owned', True):
+                # the altered link itself: `_create_link` first, then its link-property subcommands
+                cmds += [f're {i}'] + rq + lp_down + lp_up
+            else:
+                # an inheriting link: the propagated link properties are created while it is still
+                # computed, `_create_link` comes afterwards
+                cmds += lp_up + [f're {i}'] + rq + lp_down
         else:
             if o['single'] != n['single']:
                 cmds.append(f"sg {i} {b01(n['single'])}")
@@ -778,7 +783,7 @@ class Gen:
         ('drop_base', 4), ('set_abstract', 2), ('drop_abstract', 2), ('create_abslink', 3),
         ('abslink_add_prop', 3), ('abslink_drop_prop', 3), ('drop_abslink', 2),
         # compound statements: several subcommands on one pointer / several pointers and bases at once
-        ('compound_link', 12), ('compound_prop', 6), ('compound_type', 10),
+        ('compound_link', 12), ('compound_prop', 6), ('compound_type', 10), ('set_type', 6),
     ]
 
     def __init__(self, rng, risky=0.0, special=0.2):
@@ -1008,6 +1013,16 @@ class Gen:
 
         if k.startswith('compound'):
             return self.compound(k, a, owned, tids)
+        if k == 'set_type':
+            # SET TYPE … USING on properties, single links, multi links, links with link properties
+            c = [(p, d) for p, d in owned if not d['computed']]
+            if c:
+                pid, d = r.choice(c)
+                if d['kind'] == 'P':
+                    return pref(pid, d) + " set type str using ('y')"
+                tg = self.tname(a, r.choice(tids))
+                e = r.choice([f'(select {tg} limit 1)', f'.{bq(d["name"])}[is {tg}]', f'<{tg}>{{}}'])
+                return pref(pid, d) + f' set type {tg} using ({e})'
         if k == 'create_type':
             t = self.fresh('T')
             ext = ''
@@ -1224,6 +1239,17 @@ FIXED = [
         'alter type B alter link b alter property v rename to __v', 'alter type A drop property __foo']),
     ('explicit-multi-made-computed', BASE_AB + ["alter type A alter property tags using ('x')",
                                                 'alter type A alter property tags reset expression']),
+    ('set-type-using', BASE_AB + [
+        'create type A2 extending A',
+        'alter type B alter link as_ set type A2 using (.as_[is A2])',            # multi link with a link property
+        'alter type B alter link a set type A2 using (.a[is A2])',               # single link
+        'alter type B alter link b set type A2 using (select A2 limit 1)',       # single link with a link property
+        'alter type B create multi link m -> A',
+        'alter type B alter link m set type A2 using (.m[is A2])',               # multi link
+        'alter type B alter link m set type A using (<A>{})',
+        "alter type A alter property name set type str using ('y')",             # single property
+        "alter type A alter property tags set type str using ('y')",             # multi property
+        'alter type B alter link as_ { set type A using (.as_[is A]); create property w2 -> str; }']),
     ('compound-lprops-and-cardinality', BASE_AB + [
         'alter type B { alter link as_ { drop property w; set single using (select .as_ limit 1); }; }',
         'alter type B { alter link as_ { create property note -> str; set multi; }; }',
@@ -1541,8 +1567,14 @@ def run_history(R: Real, hid, name, stmts_or_gen, ncmds, lines, recs, stats, tea
                 if qerr and len(stats['query_error_samples']) < 5:
                     stats['query_error_samples'].append(qerr[0])
         rec['consumer'] = consumer[:12]
+        # steps on which the model's guard may not hold (the model is only claimed exact on guarded steps and on
+        # the corpus witnesses): the model is rebuilt from the real schema afterwards
+        special_lp = any(l['name'] in ('source', 'target') for aa in (a, a2) for d in aa['ptrs'].values()
+                         for l in d['lprops'].values())
+        maybe_unsafe = any(c.split(' ')[0] in ('rp', 'se', 're') or
+                           (special_lp and c.split(' ')[0] in ('al', 'rl', 'dl', 'cl')) for c in cmds)
         schema, a = schema2, a2
-        if cat != exp or errs or dangling:
+        if cat != exp or errs or dangling or maybe_unsafe:
             # the real code left the catalog off: resynchronise both sides so that the rest
             # of the history still says something
             cat = {k: set(v) for k, v in exp.items()}
@@ -1597,7 +1629,7 @@ def run(ctx: core.Ctx):
         for name, stmts in FIXED + corpus_histories() + special_histories():
             run_history(R, hid, name, list(stmts), 0, lines, recs, stats, teardown=not name.startswith('FINDING'))
             hid += 1
-        nh = ctx.budget(40, 1000)
+        nh = ctx.budget(40, 300)
         ncmds = 12
         for k in range(nh):
             # a fifth of the random histories may also take the variants behind the known findings
@@ -1610,7 +1642,7 @@ def run(ctx: core.Ctx):
                 ctx.log(f'time budget: stopping after {k + 1} random histories')
                 break
         nm = 0
-        for name, stmts in migration_histories(R, ctx.rng, ctx.budget(10, 300), ctx.log):
+        for name, stmts in migration_histories(R, ctx.rng, ctx.budget(10, 100), ctx.log):
             run_history(R, hid, name, stmts, 0, lines, recs, stats, teardown=False)
             hid += 1
             nm += 1
@@ -1631,7 +1663,7 @@ def run(ctx: core.Ctx):
     l1_distinct, l1_bad = level1_check(ctx, l1_lines, l1_out, l1_reals, l1_descr, stub_rows)
 
     # ---------------------------------------------------------------- compare
-    n_oracle_fail = n_corr_fail = n_oom = n_walker = n_consumer = 0
+    n_oracle_fail = n_corr_fail = n_oom = n_walker = n_consumer = n_unsafe_skipped = 0
     hist_corr_reported = set()
     unsafe_hist = {}
     distinct = set()
@@ -1688,16 +1720,18 @@ def run(ctx: core.Ctx):
             what = '+'.join(problems)
             mismatch_kinds[what] = mismatch_kinds.get(what, 0) + 1
             if '+twice' in r['template']:
-                key = 'oracle:attribute-changed-twice-in-one-statement'
+                keys = ['oracle:attribute-changed-twice-in-one-statement']
             elif unsafe:
-                key = 'oracle:' + '+'.join(sorted({UNSAFE_KEYS.get(u, u) for u in unsafe}))
+                # one report per root cause the statement runs into
+                keys = ['oracle:' + k for k in sorted({UNSAFE_KEYS.get(u, u) for u in unsafe})]
             else:
-                key = f'oracle:{r["template"]}:{what}'
-            ctx.fail(key, 'storage after the statement is not what the query compiler addresses: ' + what,
-                     {'history': r['history'], 'statement': r['text'], 'difference': detail,
-                      'backend_errors': r['errs'], 'dangling': r['dangling'],
-                      'storage_ops': r['log'], 'model_commands': r['cmds'], 'model_results': res,
-                      'unsafe_steps_by_model': unsafe})
+                keys = [f'oracle:{r["template"]}:{what}']
+            for key in keys:
+                ctx.fail(key, 'storage after the statement is not what the query compiler addresses: ' + what,
+                         {'history': r['history'], 'statement': r['text'], 'difference': detail,
+                          'backend_errors': r['errs'], 'dangling': r['dangling'],
+                          'storage_ops': r['log'], 'model_commands': r['cmds'], 'model_results': res,
+                          'unsafe_steps_by_model': unsafe})
         # ---- (iii) the consumer side: the compiler's lookup / compiled queries address existing storage
         for tag in sorted({t for t, _ in r.get('consumer', [])}):
             n_consumer += 1
@@ -1715,6 +1749,11 @@ def run(ctx: core.Ctx):
             n_oom += 1
             continue
         if r['hid'] in hist_corr_reported:
+            continue
+        if unsafe and not r['hname'].startswith('FINDING'):
+            # outside the guard the model is claimed exact only on the corpus witnesses (which tie the
+            # `…_counterexample` theorems); elsewhere an unguarded step is left to the oracle
+            n_unsafe_skipped += 1
             continue
         bad = []
         if any(x in ('rejected', 'bad-op') for x in res):
@@ -1773,6 +1812,7 @@ def run(ctx: core.Ctx):
         'oracle_failure_kinds': mismatch_kinds,
         'disagreements_model_vs_impl': n_corr_fail,
         'steps_outside_model_alphabet': n_oom,
+        'unguarded_steps_left_to_the_oracle': n_unsafe_skipped,
         'migration_pairs': stats.get('migration_pairs', 0),
         'compound_statements': sum(v for k, v in stats['templates'].items() if k.startswith('compound')),
         'tree_walk_vs_sql_text_mismatches': n_walker,
